@@ -827,6 +827,11 @@ pub fn validate_portable_value(
     }
 }
 
+/// Both operands of a logical operator must be booleans, whatever the left one is
+fn logical_operands(lhs: &Value, rhs: &Value) -> AnyhowResult<(bool, bool)> {
+    Ok((lhs.as_bool()?, rhs.as_bool()?))
+}
+
 // Evaluate binary operations on AST
 fn evaluate_binary_op_ast(
     op: BinaryOp,
@@ -988,7 +993,7 @@ fn evaluate_binary_op_ast(
                         let r_list = list_r.reify(&borrowed_heap).as_list()?;
                         let mut mapped_list = Vec::with_capacity(list_len);
                         for (l, r) in l_list.iter().zip(r_list.iter()) {
-                            mapped_list.push(Bool(l.as_bool()? && r.as_bool()?));
+                            mapped_list.push(Bool(logical_operands(&l, &r).map(|(l, r)| l && r)?));
                         }
                         mapped_list
                     };
@@ -1001,7 +1006,7 @@ fn evaluate_binary_op_ast(
                         let r_list = list_r.reify(&borrowed_heap).as_list()?;
                         let mut mapped_list = Vec::with_capacity(list_len);
                         for (l, r) in l_list.iter().zip(r_list.iter()) {
-                            mapped_list.push(Bool(l.as_bool()? || r.as_bool()?));
+                            mapped_list.push(Bool(logical_operands(&l, &r).map(|(l, r)| l || r)?));
                         }
                         mapped_list
                     };
@@ -1267,11 +1272,11 @@ fn evaluate_binary_op_ast(
                         let mut mapped_list = Vec::with_capacity(list_ref.len());
                         if is_list_first {
                             for v in list_ref.iter() {
-                                mapped_list.push(Bool(v.as_bool()? && scalar.as_bool()?));
+                                mapped_list.push(Bool(logical_operands(&v, &scalar).map(|(l, r)| l && r)?));
                             }
                         } else {
                             for v in list_ref.iter() {
-                                mapped_list.push(Bool(scalar.as_bool()? && v.as_bool()?));
+                                mapped_list.push(Bool(logical_operands(&scalar, &v).map(|(l, r)| l && r)?));
                             }
                         }
                         mapped_list
@@ -1285,11 +1290,11 @@ fn evaluate_binary_op_ast(
                         let mut mapped_list = Vec::with_capacity(list_ref.len());
                         if is_list_first {
                             for v in list_ref.iter() {
-                                mapped_list.push(Bool(v.as_bool()? || scalar.as_bool()?));
+                                mapped_list.push(Bool(logical_operands(&v, &scalar).map(|(l, r)| l || r)?));
                             }
                         } else {
                             for v in list_ref.iter() {
-                                mapped_list.push(Bool(scalar.as_bool()? || v.as_bool()?));
+                                mapped_list.push(Bool(logical_operands(&scalar, &v).map(|(l, r)| l || r)?));
                             }
                         }
                         mapped_list
@@ -1692,8 +1697,8 @@ fn evaluate_binary_op_ast(
                 op_span,
                 source.clone(),
             )?)),
-            BinaryOp::And | BinaryOp::NaturalAnd => Ok(Bool(lhs.as_bool()? && rhs.as_bool()?)),
-            BinaryOp::Or | BinaryOp::NaturalOr => Ok(Bool(lhs.as_bool()? || rhs.as_bool()?)),
+            BinaryOp::And | BinaryOp::NaturalAnd => Ok(Bool(logical_operands(&lhs, &rhs).map(|(l, r)| l && r)?)),
+            BinaryOp::Or | BinaryOp::NaturalOr => Ok(Bool(logical_operands(&lhs, &rhs).map(|(l, r)| l || r)?)),
             BinaryOp::Add => {
                 if lhs.is_string() {
                     let (l_str, r_str) = {
